@@ -412,6 +412,57 @@ def energyPd [OfNat F 1] (k eE eD : List F) (evs : List (Ev F)) (x y : F) : Opti
   | some i, some j => (energyBand k eE eD evs j)[i]?
   | _, _ => none
 
+/-! ### the histogram PDF as an object next to its caller
+
+`I3EnergyPDF` fills its histogram at construction but looks events up (and checks validity) through
+its `BinningDefinition`s at evaluation time.  `BinningDefinition` keeps a *copy* of the edge array
+it is given (`np.array(arr, dtype=np.float64)`), so what the caller does to its own arrays
+afterwards cannot reach the PDF.  `shared = true` is a binning that keeps the caller's array
+(not the code; kept for `c10_energy_object_shared_counterexample`). -/
+
+structure EObj (F : Type) where
+  eE : List F
+  eD : List F
+  bands : List (List F)
+
+structure EWorld (F : Type) where
+  obj : EObj F
+  callerE : List F
+  callerD : List F
+
+inductive EOp (F : Type) where
+  | callerWrites (eE eD : List F)    -- the caller overwrites its edge arrays in place
+  | get (x y : F)                    -- `get_pd` for one event
+  | valid (x y : F)                  -- `assert_is_valid_for_trial_data` for one event
+
+inductive EOut (F : Type) where
+  | pd (v : Option F)
+  | ok (b : Bool)
+  | unit
+deriving DecidableEq
+
+/-- construction from the caller's arrays -/
+def eNew [OfNat F 1] (k eE eD : List F) (evs : List (Ev F)) : EWorld F :=
+  { obj := { eE := eE, eD := eD, bands := (List.range (eD.length - 1)).map (energyBand k eE eD evs) },
+    callerE := eE, callerD := eD }
+
+def eGet (o : EObj F) (x y : F) : Option F :=
+  match lookup o.eE x, lookup o.eD y with
+  | some i, some j => match o.bands[j]? with
+    | some b => b[i]?
+    | none => none
+  | _, _ => none
+
+def eStep (shared : Bool) (w : EWorld F) : EOp F → EWorld F × EOut F
+  | .callerWrites eE eD =>
+    ({ obj := if shared then { w.obj with eE := eE, eD := eD } else w.obj, callerE := eE, callerD := eD }, .unit)
+  | .get x y => (w, .pd (eGet w.obj x y))
+  | .valid x y => (w, .ok (inRange w.obj.eE x && inRange w.obj.eD y))
+
+def eRun (shared : Bool) : EWorld F → List (EOp F) → List (EOut F)
+  | _, [] => []
+  | w, op :: rest => let r := eStep shared w op; r.2 :: eRun shared r.1 rest
+
 /-- weighted 1-d histogram (`np.histogram(data, bins=edges, weights=w)`) -/
 def hist1 (edges : List F) (evs : List (F × F)) : List F :=
   (List.range (edges.length - 1)).map (fun i =>
